@@ -340,6 +340,10 @@ class Exec(ExprMixin, CallMixin):
         outs = [(st, NORMAL)]
         for s in stmts:
             new = []
+            stop = self.cur[1].stop_at
+            if stop and not self.inline_depth and ast.unparse(s).split("\n")[0].startswith(stop):
+                self.used_anchors.add("stop_at")
+                return [(s1, Outcome("return", value=None, line=s.lineno) if o.kind == "normal" else o) for s1, o in outs]
             for s1, o in outs:
                 if o.kind == "normal":
                     new.extend(self.exec_stmt(s, s1))
